@@ -423,6 +423,68 @@ def ob_default_options(op):
     return h
 
 
+_TDIR = {}
+
+
+def _tdir():
+    import os, tempfile, atexit, shutil
+    pid = os.getpid()
+    if pid not in _TDIR:
+        d = tempfile.mkdtemp(prefix='c17rw')
+        _TDIR[pid] = d
+        atexit.register(lambda: shutil.rmtree(d, ignore_errors=True))
+        for f in ('main.c', 'util.c', 'foo.c', 'bar.c', 'v.c', 'x.c', 'alpha.c', 'zeta.c'):
+            open(os.path.join(d, f), 'w').close()
+    return _TDIR[pid]
+
+
+def _target_info(d):
+    rw = R.Rewriter(d)
+    rw.analyze_meson()
+    for t in ('foo', 'bar'):
+        rw.process({'type': 'target', 'target': t, 'operation': 'info'})
+    ti = rw.info_dump['target']
+    return {v['name']: list(v['sources']) for v in ti.values()}
+
+
+FOO_USES = ["common[0], 'foo.c'", "common, 'foo.c'", "'main.c', 'foo.c'", "files('main.c'), 'foo.c'", "extra, 'foo.c'"]
+BAR_USES = ["common, 'bar.c'", "common + ['v.c'], 'bar.c'", "['main.c', 'util.c'], 'bar.c'", "files('main.c', 'util.c'), 'bar.c'", "common, extra, 'bar.c'", "'bar.c', sources : common"]
+TARGET_OPS = [('src_add', 'alpha.c'), ('src_add', 'zeta.c'), ('src_add', 'util.c'), ('src_rm', 'util.c'), ('src_rm', 'main.c'), ('src_rm', 'bar.c')]
+
+
+def ob_target_edit():
+    """target add / rm sources through the real Rewriter (IntrospectionInterpreter, the dataflow DAG, add_src_or_extra / rm_src_or_extra, apply_changes) on real
+    files in a scratch directory. Shapes are enumerated (the rewriter resolves paths with pathlib, so file names stay concrete): whatever way two targets share
+    a source list - directly, through an index, inside a sum, through files() - editing `bar` gives it exactly the requested sources (or is refused and
+    changes nothing), `foo` keeps its sources, and the file still parses"""
+    def h():
+        import os
+        d = _tdir()
+        fu = FOO_USES[choose(len(FOO_USES), 'foo_uses')]; bu = BAR_USES[choose(len(BAR_USES), 'bar_uses')]
+        op, name = TARGET_OPS[choose(len(TARGET_OPS), 'operation')]
+        text = "project('p')\ncommon = ['main.c', 'util.c']\nextra = files('x.c')\nexecutable('foo', %s)\nexecutable('bar', %s)\n" % (fu, bu)
+        with open(os.path.join(d, 'meson.build'), 'w') as f: f.write(text)
+        before = _target_info(d)
+        rw = R.Rewriter(d)
+        rw.analyze_meson()
+        rw.process({'type': 'target', 'target': 'bar', 'operation': op, 'sources': [name], 'subdir': '', 'target_type': 'executable'})
+        rw.apply_changes()
+        new_text = open(os.path.join(d, 'meson.build')).read()
+        try:
+            after = _target_info(d)
+        except Exception:
+            check(False, 'the edited file can still be analysed'); return
+        check(after['foo'] == before['foo'], 'the other target keeps exactly its sources')
+        want = set(before['bar']) | {name} if op == 'src_add' else set(before['bar']) - {name}
+        if new_text == text:
+            cover('refused-or-nothing-to-do')       # e.g. removing from a list shared with another target: the rewriter warns and leaves the file alone
+            check(after['bar'] == before['bar'], 'an unchanged file means unchanged targets')
+        else:
+            check(set(after['bar']) == want, 'the addressed target has exactly the requested sources')
+            cover('edited')
+    return h
+
+
 def obligations(tier):
     q = tier == 'quick'
     out = [Obligation('reprint[depth 1]', ob_reprint(1), dict(depth=1, operators=BIN, strings='1 symbolic body <=3 over ' + repr(SA)), labels=('roundtrip',), max_paths=5000000)]
@@ -430,6 +492,8 @@ def obligations(tier):
         out.append(Obligation('operator-pairs[%d]' % f, ob_pairs(f), dict(form=f, operators='all pairs of ' + repr(BIN)), labels=('roundtrip',), max_paths=5000000))
     if not q:
         out.append(Obligation('reprint[depth 2]', ob_reprint(2), dict(depth=2, operators=BIN2), labels=('roundtrip', 'source-rejected'), max_paths=50000000, path_timeout=300))
+    out.append(Obligation('target-edit', ob_target_edit(), dict(shapes='%d ways foo uses the shared list x %d ways bar does' % (len(FOO_USES), len(BAR_USES)), operations='add new / add existing / rm shared / rm own',
+                          files='real files in a scratch directory (pathlib resolves them): names concrete'), labels=('edited', 'refused-or-nothing-to-do'), path_timeout=300))
     for op in ('set', 'delete', 'add', 'remove'):
         out.append(Obligation('kwargs[%s]' % op, ob_kwargs(op), dict(function='project', kwargs='version (string), license (list of 2 symbolic strings)', value="1-2 chars over {a, b, space, quote, backslash}"),
                               labels=('done',), max_paths=3000000))
